@@ -20,7 +20,19 @@ for d in $dirs; do
   for c in $checks; do
     s=$(date +%s); ./check $c --tier quick > /tmp/matrix.out 2>&1; rc=$?; e=$(date +%s)
     line=$(grep -E "^violation" /tmp/matrix.out | head -1 | cut -c1-300)
-    if [ $rc -eq 1 ]; then res="detected"; detail="check=$c secs=$((e-s)) $line"; break; fi
+    if [ $rc -eq 1 ]; then
+      res="detected"; detail="check=$c secs=$((e-s)) $line"
+      # the replay file must reproduce the violation (same class) in fresh processes, twice
+      rp=$(grep -E "^VIOLATION" /tmp/matrix.out | head -1 | sed -E 's/.*replay=//')
+      cls=$(echo "$line" | sed -E 's/.*class=([a-z_]+).*/\1/')
+      ok=0
+      for i in 1 2; do
+        ./target/debug/verif-sim replay "$rp" > /tmp/matrix.replay 2>&1; rrc=$?
+        if [ $rrc -eq 1 ] && grep -q "class=$cls" /tmp/matrix.replay; then ok=$((ok+1)); fi
+      done
+      detail="$detail replay_reproduced=$ok/2"
+      break
+    fi
     if [ $rc -eq 2 ]; then res="harness_error"; detail="check=$c $(grep HARNESS /tmp/matrix.out | head -1)"; break; fi
   done
   git -C "$REPO" checkout -- .
